@@ -360,15 +360,15 @@ fn world_opts(prop: &str, thorough: bool, r: &mut Rng) -> WorldOpts {
     let sort_family = vec![Kind::Sort, Kind::BatchSort];
     let frames = if thorough { *r.pick(&[6usize, 12, 25, 60]) } else { *r.pick(&[4usize, 8, 14]) };
     match prop {
-        "C01" => WorldOpts { kinds: all, max_frames: frames, max_scenes: 3, max_objects: 5, twins: true, lifecycle: true, batches: true, rotation: true, constraints: 1, features: true, stress: true, long_life: 0, lookalikes: true, wide: false },
-        "C03" => WorldOpts { kinds: all, max_frames: frames, max_scenes: 3, max_objects: 4, twins: true, lifecycle: true, batches: true, rotation: false, constraints: 0, features: true, stress: false, long_life: 0, lookalikes: false, wide: false },
-        "C13" => WorldOpts { kinds: all, max_frames: frames, max_scenes: 2, max_objects: 3, twins: false, lifecycle: true, batches: true, rotation: false, constraints: 0, features: true, stress: false, long_life: if thorough { 300 } else { 60 }, lookalikes: false, wide: false },
+        "C01" => WorldOpts { kinds: all.clone(), max_frames: frames, max_scenes: 3, max_objects: 5, twins: true, lifecycle: true, batches: true, rotation: true, constraints: 1, features: true, stress: true, long_life: 0, lookalikes: true, wide: false },
+        "C03" => WorldOpts { kinds: all.clone(), max_frames: frames, max_scenes: 3, max_objects: 4, twins: true, lifecycle: true, batches: true, rotation: false, constraints: 0, features: true, stress: false, long_life: 0, lookalikes: false, wide: false },
+        "C13" => WorldOpts { kinds: all.clone(), max_frames: frames, max_scenes: 2, max_objects: 3, twins: false, lifecycle: true, batches: true, rotation: false, constraints: 0, features: true, stress: false, long_life: if thorough { 300 } else { 60 }, lookalikes: false, wide: false },
         "C12" => WorldOpts { kinds: vec![Kind::VisualSort, Kind::BatchVisualSort], max_frames: frames, max_scenes: 2, max_objects: 4, twins: false, lifecycle: false, batches: true, rotation: false, constraints: 0, features: true, stress: true, long_life: 0, lookalikes: true, wide: false },
         "C02" => WorldOpts { kinds: sort_family, max_frames: frames, max_scenes: 2, max_objects: 5, twins: false, lifecycle: false, batches: true, rotation: true, constraints: 0, features: false, stress: true, long_life: 0, lookalikes: false, wide: false },
         "C20" => WorldOpts { kinds: sort_family, max_frames: frames, max_scenes: 2, max_objects: 4, twins: false, lifecycle: false, batches: true, rotation: false, constraints: 1, features: false, stress: true, long_life: 0, lookalikes: false, wide: false },
-        "C04" => WorldOpts { kinds: sort_family, max_frames: frames, max_scenes: 4, max_objects: 3, twins: false, lifecycle: true, batches: true, rotation: true, constraints: 1, features: false, stress: true, long_life: 0, lookalikes: false, wide: false },
-        "C05" => WorldOpts { kinds: sort_family, max_frames: frames, max_scenes: 2, max_objects: 5, twins: false, lifecycle: true, batches: true, rotation: true, constraints: 1, features: false, stress: true, long_life: 0, lookalikes: false, wide: false },
-        _ => WorldOpts { kinds: vec![Kind::BatchSort], max_frames: frames, max_scenes: 4, max_objects: 3, twins: false, lifecycle: true, batches: true, rotation: true, constraints: 1, features: false, stress: true, long_life: 0, lookalikes: false, wide: true },
+        "C04" => WorldOpts { kinds: all.clone(), max_frames: frames, max_scenes: 4, max_objects: 3, twins: false, lifecycle: true, batches: true, rotation: true, constraints: 1, features: true, stress: true, long_life: 0, lookalikes: false, wide: false },
+        "C05" => WorldOpts { kinds: all.clone(), max_frames: frames, max_scenes: 2, max_objects: 5, twins: false, lifecycle: true, batches: true, rotation: true, constraints: 1, features: true, stress: true, long_life: 0, lookalikes: false, wide: false },
+        _ => WorldOpts { kinds: vec![Kind::BatchSort, Kind::BatchSort, Kind::BatchVisualSort], max_frames: frames, max_scenes: 4, max_objects: 3, twins: false, lifecycle: true, batches: true, rotation: true, constraints: 1, features: true, stress: true, long_life: 0, lookalikes: false, wide: true },
     }
 }
 
@@ -703,11 +703,11 @@ impl Engine for TrackerEngine {
             "C01" => format!("one evaluation = one generated multi-scene detection history (objects doing random walks, crowds, exact twins, empty calls, rotation, features) with lifecycle calls, executed on one of the four real trackers under one seeded schedule; every returned record is checked against the output contract and the stored track. {common}"),
             "C02" => format!("one evaluation = one generated history on Sort/BatchSort (IoU or Mahalanobis); every call is re-derived from the observable pre-state by RefSort (independent f64 geometry/Kalman, brute-force optimal assignment) and asserted when margins allow. {common}"),
             "C03" => format!("one evaluation = one generated history with lifecycle calls on one of the four trackers under a seeded schedule, checked by the lifecycle/conservation model after every operation, plus re-executions of the same history under other auto-waste periodicities whose observable results must be identical. {common}"),
-            "C04" => format!("one evaluation = one interleaved multi-scene history on Sort/BatchSort plus one execution per scene of its projection (fresh tracker, other shard count, schedule, hash seed, GC plan); canonical per-scene streams must be equal. {common}"),
+            "C04" => format!("one evaluation = one interleaved multi-scene history on one of the four trackers plus one execution per scene of its projection (fresh tracker, other shard count, schedule, hash seed, GC plan); canonical per-scene streams must be equal. {common}"),
             "C05" => format!("one evaluation = reference execution (1 shard, run-to-block schedule) plus 3 (quick) or 5 (thorough) variants with 1..8 shards under swarm schedules, fresh hash seeds and candidate-id streams; record streams must be identical (ids included for simple trackers, up to renaming for batch trackers) up to the first step with a non-unique optimum. {common}"),
             "C13" => format!("one evaluation = one generated history (incl. long single-object lifetimes, quality sequences increasing / decreasing / constant / random around the collect threshold, features present or absent, history lengths 1..10, max observations 1..6) on one of the four trackers; after every quiescent operation every stored track's box/feature histories and appearance gallery are compared with the per-track model, as are the tracks returned by wasted(). {common}"),
             "C12" => format!("one evaluation = one generated history on VisualSort/BatchVisualSort over an option swarm (metric, thresholds, min votes, minimal track length, max observations, use/collect quality, minimal area) with look-alike objects; every call's appearance claims, contests and the positional remainder are re-derived from the observable galleries by RefVisual and asserted outside margins. {common}"),
-            "C06" => format!("one evaluation = one batch history on BatchSort (1..8 distance shards, 1..4 voting threads, consumer on same/other/late thread, early drop at shutdown) plus the same history on Sort; canonical streams equal; shuttle's deadlock detector and the step bound decide bounded liveness. {common}"),
+            "C06" => format!("one evaluation = one batch history on BatchSort or BatchVisualSort (1..8 distance shards, 1..4 voting threads, consumer on same/other/late thread, early drop at shutdown) plus the same history on the simple twin (Sort / VisualSort); canonical streams equal; shuttle's deadlock detector and the step bound decide bounded liveness. {common}"),
             _ => format!("one evaluation = one generated history on Sort/BatchSort with a random constraint table: RefSort applies an independent table implementation per call, and a run with a non-binding table is compared with the table-free run. {common}"),
         }
     }
